@@ -459,23 +459,7 @@ func (w *World) registeredFuncs() []*ssa.Function {
 				if callee == callB {
 					idx = 2
 				}
-				v := c.Call.Args[idx]
-				if mi, ok := v.(*ssa.MakeInterface); ok {
-					v = mi.X
-				}
-				switch g := v.(type) {
-				case *ssa.Function:
-					out = append(out, g)
-				case *ssa.MakeClosure:
-					out = append(out, g.Fn.(*ssa.Function))
-				default:
-					// a registration table walked by a loop
-					for _, row := range tableRows(c.Call.Args[idx]) {
-						if f := fnValueOf(row[0]); f != nil {
-							out = append(out, f)
-						}
-					}
-				}
+				out = append(out, w.regFuncsOfArg(c.Call.Args[idx], 0)...)
 			}
 		}
 	}
@@ -607,7 +591,8 @@ func handedOutInLoop(write ssa.Instruction, base ssa.Value) ssa.CallInstruction 
 	}
 	for _, l := range naturalLoops(fn) {
 		blocks := loopBlocks(l)
-		if !blocks[write.Block()] || blocks[rootInstr.Block()] {
+		_, carried := root.(*ssa.Phi)
+		if !blocks[write.Block()] || (blocks[rootInstr.Block()] && !(carried && rootInstr.Block() == l.header)) {
 			continue
 		}
 		for b := range blocks {
@@ -652,13 +637,46 @@ func storageRootD(v ssa.Value, depth int) ssa.Value {
 			}
 			return nil
 		case *ssa.Phi:
-			// one allocation seen through a loop-carried variable
+			// one allocation seen through loop-carried variables: the phis, reslices and appends that feed each
+			// other form one family; its storage is the one allocation among its leaves, or - when the variable
+			// starts out nil and is only ever refilled by append (buf = buf[:0]; buf = append(buf, x)) - whatever
+			// the outermost variable of the family holds, lap after lap
+			var phis []*ssa.Phi
+			var leaves []ssa.Value
+			seen := map[ssa.Value]bool{}
+			var walk func(u ssa.Value, d int)
+			walk = func(u ssa.Value, d int) {
+				if seen[u] || d > 12 {
+					return
+				}
+				seen[u] = true
+				switch y := u.(type) {
+				case *ssa.Phi:
+					phis = append(phis, y)
+					for _, op := range y.Edges {
+						walk(op, d+1)
+					}
+				case *ssa.Slice:
+					walk(y.X, d+1)
+				case *ssa.Call:
+					if bi, ok := y.Call.Value.(*ssa.Builtin); ok && bi.Name() == "append" {
+						walk(y.Call.Args[0], d+1)
+						return
+					}
+					leaves = append(leaves, u)
+				default:
+					leaves = append(leaves, u)
+				}
+			}
+			walk(x, 0)
 			var root ssa.Value
-			for _, op := range x.Edges {
-				if op == ssa.Value(x) {
+			onlyNil := true
+			for _, lf := range leaves {
+				if c, ok := lf.(*ssa.Const); ok && c.Value == nil {
 					continue
 				}
-				r := storageRootD(op, depth+1)
+				onlyNil = false
+				r := storageRootD(lf, depth+1)
 				if r == nil {
 					continue
 				}
@@ -667,7 +685,38 @@ func storageRootD(v ssa.Value, depth int) ssa.Value {
 				}
 				root = r
 			}
+			if root == nil && onlyNil && len(phis) > 0 {
+				top := phis[0]
+				for _, q := range phis[1:] {
+					if q.Block() != top.Block() && q.Block().Dominates(top.Block()) {
+						top = q
+					}
+				}
+				return top
+			}
 			return root
+		case *ssa.UnOp:
+			// a local composite (List{Val: s}) holding the slice: the storage of what was stored in its field
+			if al, ok := x.X.(*ssa.Alloc); ok && x.Op == token.MUL && al.Referrers() != nil {
+				var root ssa.Value
+				for _, ref := range *al.Referrers() {
+					fa, ok := ref.(*ssa.FieldAddr)
+					if !ok || fa.Referrers() == nil {
+						continue
+					}
+					for _, u := range *fa.Referrers() {
+						if st, ok := u.(*ssa.Store); ok && st.Addr == ssa.Value(fa) {
+							if _, isSlice := st.Val.Type().Underlying().(*types.Slice); isSlice {
+								if r := storageRootD(st.Val, depth+1); r != nil {
+									root = r
+								}
+							}
+						}
+					}
+				}
+				return root
+			}
+			return nil
 		default:
 			return nil
 		}
